@@ -8,12 +8,23 @@ REPO = '/repo'
 MOD = 'src/diagonal.works/b6/'
 # (commit, hunk ordinal within commit, 1-based) -> list of (rule, property, expect_key)
 EXPECT = {
+ ('05a6c58', 1): [('RAWBASE', 'C12', 'RAWBASE/ingest.(*MutableOverlayWorld).AddTag#1')],
+ ('05a6c58', 2): [('RAWBASE', 'C12', 'RAWBASE/ingest.(*MutableOverlayWorld).RemoveTag#1')],
+ ('5bd9278', 1): [('SELFREF', 'C14', 'SELFREF/ingest.(*MutableOverlayWorld).Snapshot#1')],
+ ('4db5f98', 1): [('SHADOW-FILTER', 'C15', 'SHADOW-FILTER/ingest.(*MutableOverlayWorld).FindReferences#1')],
+ ('c7bc180', 1): [('RECURSION-GUARD', 'C15', 'RECURSION-GUARD/ingest.(*FeatureReferencesByID).findReferences#1')],
+ ('7ef6b37', 1): [('SHRINK-IN-RANGE', 'C39', 'SHRINK-IN-RANGE/b6.(*Tags).RemoveTags#1')],
+ ('6f63c72', 1): [('CLONE-DEPTH', 'C38', 'CLONE-DEPTH/ingest.(*AreaMembers).Clone')],
+ ('8463825', 1): [('CLONE-DEPTH', 'C38', 'CLONE-DEPTH/ingest.(*CollectionFeature).Clone')],
+ ('8463825', 2): [('CLONE-DEPTH', 'C38', 'CLONE-DEPTH/ingest.(*CollectionFeature).MergeFromCollectionFeature')],
+ ('f637edf', 1): [('MEMBER-KEY', 'C29', 'MEMBER-KEY/ingest.(*pbfSource).Read#1')],
+ ('c1b1f2e', 1): [('LAYOUT', 'C10', 'LAYOUT/encoding.NewUint64MapBuilder#1')],
+ ('8abd2f7', 2): [('CLIENT-STEPPED-LOOP', 'C23', 'CLIENT-STEPPED-LOOP/api/functions.samplePoints#1')],
+ ('4284048', 1): [('MUTATOR-ERR', 'C26', 'MUTATOR-ERR/ingest.(ingestedYAML).Apply#5')],
  ('0b184d3', 1): None,  # covered by mutants/RESTORE.json
  ('0b184d3', 2): None,
  ('5adedaa', 1): [('STOP-AFTER-ERROR', 'C28', 'STOP-AFTER-ERROR/encoding.(*Uint64Map).EachItem#1'), ('ERR-RETURNED', 'C28', 'ERR-RETURNED/encoding.(*Uint64Map).EachItem#1')],
  ('5adedaa', 2): [('PRODUCER', 'C28', 'PRODUCER/encoding.(*Uint64Map).EachItem#1')],
- ('b4ed2c5', 2): [('PRODUCER', 'C28', 'PRODUCER/ingest.(MemoryFeatureSource).Read#1')],
- ('3b1d4ff', 1): [('PRODUCER', 'C28', 'PRODUCER/osm.ReadPBFWithOptions#1')],
  ('2011475', 1): [('DEFPANIC', 'C01', 'DEFPANIC/ingest/compact.(*PolygonGeometryReferences).FromPathIDs#1')],
  ('8e12959', 1): [('APPEND-ONCE', 'C01', 'APPEND-ONCE/ingest/compact.fromCompactValue#3')],
  ('50dbf6e', 1): [('CODEC-SYM', 'C11', 'CODEC-SYM/ingest/compact.(*Area).Marshal')],
@@ -82,5 +93,9 @@ for (commit, n), exp in sorted(EXPECT.items(), key=lambda kv: str(kv[0])):
             break
     if not done:
         problems.append('%s hunk %d: no unique context found' % (commit, n))
+# commits whose hunks do not type-check one at a time are reverted whole, as a patch
+for commit, rule, prop, key in [('3b1d4ff', 'PRODUCER', 'C28', 'PRODUCER/osm.ReadPBFWithOptions#1'), ('b4ed2c5', 'PRODUCER', 'C28', 'PRODUCER/ingest.(MemoryFeatureSource).Read#1')]:
+    mutants.append({'id': 'revert-%s-whole-%s' % (commit, rule), 'rule': rule, 'property': prop, 'patch': 'mutants/patches/revert-%s.diff' % commit,
+                    'expect_key': key, 'why': 'puts back the defect repaired by %s (%s)' % (commit, subjects.get(commit, '?'))})
 json.dump(mutants, open('/verif/mutants/REVERT.json', 'w'), indent=1)
 print(len(mutants), 'revert mutants written;', 'problems:', problems)
